@@ -1,4 +1,5 @@
 import PlinioVerif.Lemmas.PIT.Sharing
+import PlinioVerif.Props.C08
 /-!
 # C09 — every layer sees exactly the alive features of the tensor that reaches it
 
@@ -128,6 +129,35 @@ theorem exported_in_width (ms : List (List Bool)) (n : ℕ) :
       simp [List.getD_eq_getElem?_getD, List.getElem?_append_left hi]
     rw [h1, ih]
     cases b <;> simp [List.getD_eq_getElem?_getD]
+
+/-- **the exported network is shape-consistent for every mask assignment** (also with layers
+excluded from the search): the tensor that reaches a converted layer in the exported network has
+exactly as many channels as the layer was exported with input channels — at the level of the
+abstract network semantics, for every supported program, input and layer semantics -/
+theorem export_shape_consistent {V : Type} [AddCommMonoid V] (σ : Sem V) (inp : ℕ → List V)
+    (hl : computeLabels p = some l) (hws : wellShaped p = true) (hsup : supported p = true)
+    (hsem : ∀ n (hn : n < p.length), SemOK σ inp (p[n], n)) (s : ℕ) (hs : s < p.length) :
+    (gv (runBoth σ (aliveMasks p l α) inp p.zipIdx).2 s).length
+      = (compress (gm (aliveMasks p l α) s) (idxFrom 0 (gm (aliveMasks p l α) s).length)).length := by
+  have hco := coherent_of_bookkeeping σ inp p l α hl hws hsup hsem
+  have hinv := run_inv σ (aliveMasks p l α) inp p p.length (le_refl _) hco
+  have htake : p.zipIdx.take p.length = p.zipIdx := by apply List.take_of_length_le; simp
+  rw [htake] at hinv
+  obtain ⟨-, -, h⟩ := hinv
+  obtain ⟨h1, -, h3⟩ := h s hs
+  rw [h3]
+  apply compress_length_eq
+  rw [idxFrom_length]; exact h1.symm
+
+/-- every converted convolution / linear layer keeps at least one output feature in the export
+plan, whatever the mask parameters (the keep-alive feature; C08 at network level) -/
+theorem exported_layer_keeps_a_feature (g : Group) (hw : 0 < g.width) (a : List Rat) :
+    1 ≤ countT (featMask g a) := by
+  unfold featMask
+  split
+  · rw [countT_replicate]; simp only [if_true]; omega
+  · have h1 := C08.out_features_opt_pos g.width hw (ofList a)
+    unfold countTrue at h1; unfold countT; exact h1
 
 /-! ### the two unsupported topologies (open known findings), witnessed on the model -/
 
